@@ -23,7 +23,7 @@ ASSUMPTIONS = [
     "a value supplied for a non-settable parameter (constant, reserved, matching request) may be rejected or ignored (C08)",
     "requested vs decoded uses the value equivalence of DESIGN 2.5 (True == 1, 3.0 == 3, bytes == bytearray are equal)",
 ]
-MUST_HIT = ["mut:const-near-miss", "mut:valid-assignment", "mut:request-too-short", "mut:tablekey", "mut:tstruct", "minmax-sweep:A_UNICODE2STRING", "minmax-sweep:A_BYTEFIELD", "sweep:A_UINT32", "sweep:A_INT32:2C", "sweep:A_INT32:1C", "sweep:A_INT32:SM", "sweep:BCD", "outcome:rejected",
+MUST_HIT = ["mut:does-not-fit", "mut:const-near-miss", "mut:valid-assignment", "mut:request-too-short", "mut:tablekey", "mut:tstruct", "minmax-sweep:A_UNICODE2STRING", "minmax-sweep:A_BYTEFIELD", "sweep:A_UINT32", "sweep:A_INT32:2C", "sweep:A_INT32:1C", "sweep:A_INT32:SM", "sweep:BCD", "outcome:rejected",
             "outcome:accepted", "mut:int-out-of-range", "mut:struct-missing-required", "mut:struct-unknown-param",
             "mut:mux", "mut:bytes", "mut:str", "mut:wrong-type", "mut:list"]
 
@@ -299,7 +299,8 @@ def mutated_case():
 
     @st.composite
     def s(draw):
-        base = draw(gen.message_case())
+        focus = draw(st.sampled_from([None, None, None, "sfield", "dlfield", "mux", "eopf", "emfield"]))
+        base = draw(gen.message_case(opts={"focus": focus}))
         if draw(st.integers(0, 99)) < 12:
             # the unmodified valid assignment: it is accepted, so the PDU must say what was asked for
             return {"msg": base["msg"], "values": base["values"], "request": base["request"], "features": base["features"],
@@ -339,6 +340,62 @@ def mutated_case():
     return s()
 
 
+def overflow_case():
+    """values that do not fit the fixed room their description gives them: items of a STATIC-FIELD larger than
+    ITEM-BYTE-SIZE, content of a structure larger than its BYTE-SIZE (the leaf itself would accept the value)"""
+    from hypothesis import strategies as st
+    u8 = {"t": "std", "bt": "A_UINT32", "bl": 8, "enc": None, "hl": None}
+
+    @st.composite
+    def s(draw):
+        kind = draw(st.sampled_from(["leading", "minmax", "paramlen"]))
+        room = draw(st.integers(1, 3))
+        if kind == "leading":
+            dct = {"t": "leading", "bt": "A_BYTEFIELD", "bl": 8, "enc": None, "hl": None}
+            over = 1
+        elif kind == "minmax":
+            dct = {"t": "minmax", "bt": "A_BYTEFIELD", "min": 0, "max": None, "term": draw(st.sampled_from(["ZERO", "HEX-FF"])),
+                   "enc": None, "hl": None}
+            over = 1
+        else:
+            dct = {"t": "leading", "bt": "A_ASCIISTRING", "bl": 8, "enc": None, "hl": None}
+            over = 1
+        pt = "A_BYTEFIELD" if dct["bt"] == "A_BYTEFIELD" else "A_UNICODE2STRING"
+        leaf = {"k": "simple", "id": "dleaf", "dct": dct, "compu": {"c": "IDENTICAL"}, "pt": pt}
+        lead = {"k": "simple", "id": "dlead", "dct": dict(u8), "compu": {"c": "IDENTICAL"}, "pt": "A_UINT32"}
+        item = {"k": "struct", "id": "sitem", "bs": None, "params": [
+            {"pk": "value", "name": "a", "pos": 0, "bit": 0, "dop": lead, "default": None},
+            {"pk": "value", "name": "b", "pos": None, "bit": 0, "dop": leaf, "default": None}]}
+        size = 1 + over + room
+
+        def val(n):
+            if pt == "A_BYTEFIELD":
+                return bytes((i % 200) + 1 for i in range(n))      # neither 0x00 nor 0xFF inside
+            return "ABCDEFGHIJ"[:n]
+        container = draw(st.sampled_from(["sfield", "byte-size"]))
+        nitems = draw(st.integers(1, 3))
+        lens = [draw(st.integers(0, room)) for _ in range(nitems)]
+        k = draw(st.integers(0, nitems - 1))
+        lens[k] = room + draw(st.integers(1, 4))        # the one that does not fit
+        tail = draw(st.booleans())
+        if container == "sfield":
+            dop = {"k": "sfield", "id": "sf", "st": item, "n": nitems, "isz": size}
+            value = [{"a": 7 + i, "b": val(n)} for i, n in enumerate(lens)]
+        else:
+            dop = dict(item, bs=size)
+            value = {"a": 7, "b": val(lens[k])}
+        params = [{"pk": "const", "name": "sid", "pos": 0, "bit": 0, "dct": dict(u8), "v": 0x2E},
+                  {"pk": "value", "name": "f", "pos": 1, "bit": 0, "dop": dop, "default": None}]
+        values = {"f": value}
+        if tail:
+            params.append({"pk": "value", "name": "t", "pos": None, "bit": 0, "dop": dict(lead, id="dtail"), "default": None})
+            values["t"] = 0x77
+        return {"msg": {"kind": "request", "params": params}, "values": values, "request": None,
+                "features": ["overflow", container, "dct:" + dct["t"]],
+                "mutation": {"path": ["f"], "kind": "overflow", "label": f"does-not-fit:{container}:{kind}"}}
+    return s()
+
+
 def eval_case(case, res: core.ShardResult | None = None) -> list:
     case = mh.norm_case(case)
     if case.get("stage") == "sweep":
@@ -353,7 +410,7 @@ def eval_case(case, res: core.ShardResult | None = None) -> list:
     cls = set()
     lab0 = label.split(":")[0]
     cls.add("mut:" + lab0)
-    for grp in ("mux", "bytes", "str", "list", "sfield", "struct", "tablekey", "tstruct", "request-too-short", "const-near-miss"):
+    for grp in ("does-not-fit", "mux", "bytes", "str", "list", "sfield", "struct", "tablekey", "tstruct", "request-too-short", "const-near-miss"):
         if lab0.startswith(grp):
             cls.add("mut:" + grp)
     if "wrong-type" in label or lab0 in ("linear", "float", "text"):
@@ -376,7 +433,8 @@ def replay(case) -> list:
 
 
 def shards(tier):
-    return [("sweep", i, 6) for i in range(6)] + [("minmax", i, 2) for i in range(2)] + [("hyp", i) for i in range(8)]
+    return [("sweep", i, 6) for i in range(6)] + [("minmax", i, 2) for i in range(2)] + [("hyp", i) for i in range(8)] + \
+        [("overflow", 0)]
 
 
 def run_shard(spec, seed, tier):
@@ -396,6 +454,13 @@ def run_shard(spec, seed, tier):
             else:
                 out.append(f)
         return out
+    if spec[0] == "overflow":
+        n = 400 if tier == "quick" else 5000
+        found = core.hyp_search(overflow_case(), body, seed, n, shrink_budget_s=30)
+        if found:
+            res.failures.extend(found)
+        res.stages["overflow"] = n
+        return res
     n = 1000 if tier == "quick" else 20000
     found = core.hyp_search(mutated_case(), body, seed, n, shrink_budget_s=30)
     if found:
